@@ -417,6 +417,15 @@ func (h *c19dBMP) decode(data []byte, final bool) *c19dBMPState {
 func (h *c19dBMP) checkPeerHeader(s *c19dBMPState, i int, name string, ph bmp.BMPPeerHeader, wit func() map[string]any) bool {
 	addr := ph.PeerAddress.String()
 	p := h.peerByAddr(addr)
+	if name == "route-monitoring" && ph.PeerType == bmp.BMP_PEER_TYPE_GLOBAL && p == nil && ph.PeerAS == 0 && ph.PeerAddress.IsUnspecified() {
+		view := "pre-policy"
+		if ph.Flags&bmp.BMP_PEER_FLAG_POST_POLICY != 0 {
+			view = "post-policy"
+		}
+		h.viol(i, "c19d:bmp:route-monitoring:"+view+":locally-originated-route:peer-without-peer-up",
+			"route monitoring message under the per-peer header address 0.0.0.0 / AS 0 / BGP id 0.0.0.0 (the source of locally originated routes): no Peer Up ever announced such a peer", wit())
+		return false
+	}
 	if ph.PeerType != bmp.BMP_PEER_TYPE_GLOBAL || p == nil {
 		h.viol(i, "c19d:bmp:"+name+":peer-header:unknown-peer", fmt.Sprintf("per-peer header names peer type %d address %s", ph.PeerType, addr), wit())
 		return false
@@ -824,8 +833,20 @@ func (h *c19dBMP) compareViews(s *c19dBMPState) ([]c19dViewDiff, int) {
 		if len(out) == n0 {
 			// level 2, what a station does with the ADD-PATH capability of the Loc-RIB Peer Up
 			// (RFC 7911): routes are keyed by (prefix, path identifier)
+			// The identifier itself is an opaque handle (two equal paths may swap the best position
+			// silently): what must hold is one route per destination that has a best path, none otherwise.
 			missing, extra, differ := c19dMapDiff(s.loc, want2)
-			if len(missing)+len(extra)+len(differ) > 0 {
+			perPfx := map[string]int{}
+			for k := range s.loc {
+				perPfx[c19dPfxOf(k)]++
+			}
+			consistent := len(perPfx) == len(want1)
+			for pfx := range want1 {
+				if perPfx[pfx] != 1 {
+					consistent = false
+				}
+			}
+			if !consistent {
 				bad := map[string]bool{}
 				for _, k := range append(append(append([]string{}, missing...), extra...), differ...) {
 					bad[c19dPfxOf(k)] = true
@@ -1090,9 +1111,14 @@ func c19dBMPCase(t *testing.T, rec *vlib.Rec, idx int) {
 		downKind = "remote-close" // nothing is monitored: no marker barrier to decide "no Peer Down" with
 	}
 	h.late, h.downKind = late, downKind
+	reup := r.IntN(2) == 0
+	nLocal := 0
+	if r.IntN(3) == 0 {
+		nLocal = 1 + r.IntN(2)
+	}
 	confs := c19dGenPeers(r, 2+r.IntN(2), h.globalAS, false)
 	h.sysName = fmt.Sprintf("c19d-station-%d", idx)
-	h.shape = []string{fmt.Sprintf("as=%d mon=%s import-policy=%v stats=%v late-station=%v down=%s", h.globalAS, h.policy, policy, stats, late, downKind)}
+	h.shape = []string{fmt.Sprintf("as=%d mon=%s import-policy=%v stats=%v late-station=%v down=%s reup=%v local=%d", h.globalAS, h.policy, policy, stats, late, downKind, reup, nLocal)}
 	for _, c := range confs {
 		h.shape = append(h.shape, c.shape())
 	}
@@ -1151,6 +1177,14 @@ func c19dBMPCase(t *testing.T, rec *vlib.Rec, idx int) {
 			return
 		}
 		h.logf("up %s", p.conf.Addr)
+	}
+	pool := append(append([]string{}, c19dV4Pool...), c19dV6Pool...)
+	for i := 0; i < nLocal; i++ {
+		pfx := pool[r.IntN(len(pool))]
+		if err := c19dAddLocal(n, r, pfx); err != nil {
+			t.Fatalf("AddPath %s: %v", pfx, err)
+		}
+		h.logf("local route %s", pfx)
 	}
 	h.traffic(4 + r.IntN(8))
 	if late {
@@ -1359,6 +1393,24 @@ func c19dBMPCase(t *testing.T, rec *vlib.Rec, idx int) {
 			return
 		}
 		s = h.converge("after session loss")
+		if reup && (downKind == "remote-close" || downKind == "remote-notification") {
+			// the session comes back: a second Peer Up with the new OPENs, the routes are reported afresh
+			p.held = map[bgp.Family]map[c19dNLRI]bool{}
+			if err := p.bringUp(n, false); err != nil {
+				rec.Inconclusive(err.Error())
+				return
+			}
+			h.logf("up again %s", p.conf.Addr)
+			h.traffic(2 + r.IntN(6))
+			if !h.barrier() {
+				return
+			}
+			s = h.converge("after re-establishment")
+			if ss := s.sess[p.conf.Addr]; ss == nil || ss.ups != 2 || !ss.up {
+				h.viol(-1, "c19d:bmp:peer-up:count:re-established", fmt.Sprintf("session %s was established twice, the station saw %v", p.conf.Addr, ss), nil)
+			}
+			rec.Count("bmp_sessions_reestablished", 1)
+		}
 	}
 
 	// termination
